@@ -199,10 +199,29 @@ def r13_no_value_substitution(ctx, prog, cats, rule="C18-R13"):
                 continue
             n += 1
             how, fn, arg = target
+
+            def is_row(e, depth=0):
+                """a whole row: r.as_list(), or a loop / comprehension
+                variable running over a collection of rows"""
+                if isinstance(e, ast.Call) and \
+                        isinstance(e.func, ast.Attribute) and \
+                        e.func.attr == "as_list":
+                    return True
+                if isinstance(e, ast.Name) and depth < 3:
+                    for x in ast.walk(f.node):
+                        if isinstance(x, ast.comprehension) and \
+                                isinstance(x.target, ast.Name) and \
+                                x.target.id == e.id:
+                            return rows_collection(f.node, x.iter)
+                        if isinstance(x, ast.For) and \
+                                isinstance(x.target, ast.Name) and \
+                                x.target.id == e.id:
+                            return rows_collection(f.node, x.iter)
+                return False
             if how == "map":
                 ok = rows_collection(f.node, arg)
             else:
-                ok = False
+                ok = is_row(arg)
             ctx.check(rule, f, "%s applied in %s" % (fn, norm(c, 70)), ok,
                       "%s (which returns a constant for some values) is "
                       "applied to individual field values: every field "
